@@ -4,6 +4,7 @@ import shutil
 import subprocess
 
 from plan import R, D, M, A, V, stages
+import fuzzstage
 
 PYTHON = "/usr/bin/python3"     # its hashlib has md5, sha1, sha256, sha512, blake2s and ripemd160
 
@@ -33,6 +34,7 @@ def hashlib_vectors(root, outdir, seed, tier):
 
 
 PLAN = dict(
+    extra={"thorough": [fuzzstage.diff_stage(5, "C13")]},
     **_STAGES,
     pre=[hashlib_vectors],
     rule=("inputs come from oracle/digest_vectors.py (Python hashlib, seeded): every length 0-130 with "
